@@ -89,6 +89,33 @@ def run(ctx, b, broken):
                 su.violation(text, f"declared names {names} came out as {got} (innermost declnames {inner})")
         except Exception as ex:
             su.violation(text, f"rejected: {ex}")
+    # _Atomic(T) means the same as the _Atomic-qualified T - in every context a type can be written in:
+    # the two spellings must give the same tree (coordinates aside)
+    ATOMIC_FORMS = [
+        ("_Atomic(int) v;", "_Atomic int v;"), ("_Atomic(int) *p;", "_Atomic int *p;"), ("_Atomic(int *) q;", "int * _Atomic q;"),
+        ("typedef _Atomic(long) AL;", "typedef _Atomic long AL;"), ("struct S { _Atomic(int) m; _Atomic(char) c[2]; };", "struct S { _Atomic int m; _Atomic char c[2]; };"),
+        ("void f(_Atomic(int) a, int b);", "void f(_Atomic int a, int b);"), ("void f(_Atomic(int));", "void f(_Atomic int);"),
+        ("void g(_Atomic(int) *, _Atomic(int *));", "void g(_Atomic int *, int * _Atomic);"), ("void h(const _Atomic(int));", "void h(const _Atomic int);"),
+        ("void k(_Atomic(int) [3], _Atomic(int) (*)(void));", "void k(_Atomic int [3], _Atomic int (*)(void));"),
+        ("int s = sizeof(_Atomic(int));", "int s = sizeof(_Atomic int);"), ("int s3 = sizeof(_Atomic(int)[3]);", "int s3 = sizeof(_Atomic int[3]);"),
+        ("int c = (_Atomic(int))1;", "int c = (_Atomic int)1;"), ("int a = _Alignof(_Atomic(long));", "int a = _Alignof(_Atomic long);"),
+        ("_Alignas(_Atomic(long)) int al;", "_Alignas(_Atomic long) int al;"), ("void m(void){ int *p = (_Atomic(int) *)0; int z = ((_Atomic(int)){1}); }", "void m(void){ int *p = (_Atomic int *)0; int z = ((_Atomic int){1}); }"),
+        ("_Atomic(_Atomic(int) *) pp;", "_Atomic int * _Atomic pp;"), ("int f2(_Atomic(int) (*fp)(_Atomic(int)));", "int f2(_Atomic int (*fp)(_Atomic int));"),
+        ("void kr(a) _Atomic(int) a; { }", "void kr(a) _Atomic int a; { }"), ("void fo(void){ for (_Atomic(int) i = 0; i < 2; i++) ; }", "void fo(void){ for (_Atomic int i = 0; i < 2; i++) ; }"),
+    ]
+
+    def nocoord(t):
+        f = t.split("\x1f")
+        return re.sub(r" @[^\s,()\]]*", "", f[1] if len(f) > 1 else t)       # the tree without coordinates (and without the token-read counter)
+    for spec_form, qual_form in ATOMIC_FORMS:
+        ctx.evaluations += 1
+        ctx.count("suite:atomic-forms")
+        ctx.nontriv(("atomic-form", spec_form))
+        ia, ib = impl_parse(spec_form), impl_parse(qual_form)
+        su.corr(spec_form, ia, tag="atomic specifier forms")
+        su.corr(qual_form, ib, tag="atomic specifier forms")
+        if ia.startswith("OK") and ib.startswith("OK") and nocoord(ia) != nocoord(ib):
+            su.violation(spec_form, f"`{spec_form}` and `{qual_form}` (the same declaration, _Atomic(T) written as the qualifier) give different trees")
     # hand-written programs (rarely used productions): model and implementation must agree on each, tree and coordinates
     for text, _valid in ZOO:
         ctx.evaluations += 1
